@@ -1,5 +1,7 @@
 use std::fs::File;
 use std::io::{BufRead, BufReader};
+use std::sync::Arc;
+use std::sync::atomic::{AtomicBool, Ordering};
 
 pub struct TablePrinter {
     column_names: Vec<String>,
@@ -81,14 +83,25 @@ impl TablePrinter {
 
 pub struct FollowFileIterator {
     reader: BufReader<File>,
-    line: Vec<u8>
+    line: Vec<u8>,
+    running: Option<Arc<AtomicBool>>
 }
 
 impl FollowFileIterator {
     pub fn new(reader: BufReader<File>) -> FollowFileIterator {
         FollowFileIterator {
             reader,
-            line: Vec::new()
+            line: Vec::new(),
+            running: None
+        }
+    }
+
+    /// The iteration ends when the flag is cleared while waiting for the next line to be completed
+    pub fn with_running(reader: BufReader<File>, running: Arc<AtomicBool>) -> FollowFileIterator {
+        FollowFileIterator {
+            reader,
+            line: Vec::new(),
+            running: Some(running)
         }
     }
 }
@@ -106,6 +119,13 @@ impl Iterator for FollowFileIterator {
             // If we get an EOF in the middle of a line, read_until will return.
             // We will then try again and use content of current read line
             if !self.line.ends_with(b"\n") {
+                // Nothing more to deliver yet: an interrupted query stops waiting
+                if let Some(running) = self.running.as_ref() {
+                    if !running.load(Ordering::SeqCst) {
+                        return None;
+                    }
+                }
+
                 #[cfg(feature = "verif_hooks")]
                 if !verif_hooks::follow_retry() {
                     return None;
